@@ -6,9 +6,12 @@ import (
 	"encoding/json"
 	"fmt"
 	"os"
+	"runtime"
 	"sort"
 	"strings"
 	"time"
+
+	"github.com/jackc/pgx/v5/pgxpool"
 
 	"verifh/checks"
 	"verifh/explore"
@@ -86,6 +89,7 @@ func init() {
 		Technique: "exhaustive fault enumeration on the real pipeline (instrumented code under the controlled scheduler, fake Postgres, simulated node): every I/O operation of the steps x every fault kind x process death, singly and in pairs; invariant checked in every committed state; differential check of the state after retry against the fault-free run",
 		Rule: "scenarios = growth-only steps for shapes L1 (headers+logs), L2 (logs), T1 (blocks), R1 (blocks+receipts) x (batch,conc) in {1,3}x{1,2}; a step that detects a reorg (3 blocks indexed, then the last 1 or 2 replaced and one appended) for L1 and T1; the same after a position that covers 2 or 3 blocks, alone and with a sibling integration of the same source (other table, same table) that sits at the head; a step of a dependent integration with reference look-ups (R indexed first). " +
 			"Per scenario: every I/O point after the set-up (each SQL batch incl. begin/commit/COPY/copydone, each JSON-RPC exchange) x {SQL error, SQL connection drop | rpc error, transport error, HTTP 500, truncated body} and process death (all connections dropped, tasks and clients discarded, re-created by loadTasks); quick: every single fault, and every pair on the batch=1 conc=1 scenarios of L1 and T1 (growth, and reorg of the last block); thorough: every pair. " +
+			"After every step (failed or not) the code under test must hold nothing: no database session inside a transaction and no acquired pool connection; at the end the pool must close. " +
 			"An execution is non-trivial when at least one fault or death was injected.",
 		Assumptions: []string{
 			"fake Postgres (h/simpg): a failed statement aborts the transaction, an error on COMMIT rolls back, a dropped connection rolls back; 'reply lost after the server executed the statement' is covered by process death before the next operation, not as a separate connection fault",
@@ -335,6 +339,40 @@ func c02Canon(w *world.W, p *c02Prep) string {
 	return sb.String()
 }
 
+// c02AwaitReleased returns the number of pool connections that stay acquired for good. pgxpool hands a broken
+// connection back asynchronously (puddle destroys it in a goroutine of its own), so "still acquired" alone is a
+// matter of timing. The verdict is not: a connection is leaked when it is still acquired although no goroutine of
+// the pool is busy handing one back (goroutine dump) - that state cannot change any more.
+func c02AwaitReleased(pool *pgxpool.Pool) int {
+	t0 := time.Now()
+	buf := []byte(nil)
+	for i := 0; ; i++ {
+		n := int(pool.Stat().AcquiredConns())
+		if n == 0 {
+			return 0
+		}
+		if i < 20 {
+			time.Sleep(50 * time.Microsecond)
+			continue
+		}
+		if buf == nil {
+			buf = make([]byte, 1<<20)
+		}
+		stacks := string(buf[:runtime.Stack(buf, true)])
+		pending := false
+		for _, f := range []string{"destroyAcquiredResource", "AcquireAllIdle", "checkConnsHealth", "checkMinConns", "releaseAcquiredResource"} {
+			pending = pending || strings.Contains(stacks, f)
+		}
+		if n = int(pool.Stat().AcquiredConns()); n == 0 {
+			return 0
+		}
+		if !pending || time.Since(t0) > 60*time.Second {
+			return n
+		}
+		time.Sleep(time.Millisecond)
+	}
+}
+
 func c02SQLLabel(b simpg.Batch) string {
 	s := ""
 	if len(b.SQL) > 0 {
@@ -459,6 +497,7 @@ func c02Exec(p *c02Prep, ch vrt.Chooser, reference, trace bool) (res c02Result) 
 
 	armed := false // faults and death are offered
 	dead := false
+	leaked := false
 	// slice of the enumeration: before the first fault, only I/O points of this slice offer alternatives
 	ord, allowed := 0, true
 	decide := func() {
@@ -672,6 +711,22 @@ func c02Exec(p *c02Prep, ch vrt.Chooser, reference, trace bool) (res c02Result) 
 			if len(res.vios) > 0 {
 				return
 			}
+			// ---- a step that has returned holds nothing: no session inside a transaction, no pool connection ----
+			how := "failed-step"
+			if out == "ok" {
+				how = "step"
+			}
+			if txs := w.PG.OpenTxs(); len(txs) > 0 {
+				leaked = true
+				vio("leak", "leak:open-tx-after-"+how+":"+cls, fmt.Sprintf("step %d returned %q (%v) but %d database session(s) are still inside a transaction: nothing will ever end it (its rows stay locked, its connection is lost to the pool)", res.steps, out, err, len(txs)))
+				return
+			}
+			if n := c02AwaitReleased(w.Pool); n > 0 {
+				leaked = true
+				vio("leak", "leak:pool-connection-after-"+how+":"+cls, fmt.Sprintf("step %d returned %q (%v) but %d pool connection(s) are still acquired: the step dropped a transaction handle without Commit/Rollback", res.steps, out, err, n))
+				return
+			}
+			res.counts["steps_checked_for_leaks"]++
 			switch out {
 			case "panic":
 				vio("panic", "panic:converge:"+cls, fmt.Sprintf("Converge panicked: %v (faults so far: %v)", err, append(append([]string{}, w.Faults...), res.faults...)))
@@ -722,6 +777,25 @@ func c02Exec(p *c02Prep, ch vrt.Chooser, reference, trace bool) (res c02Result) 
 		// the steps run in a thread of their own so that a deadlock of the code under test unwinds through its error paths at teardown
 		tt := w.V.GoNamed("task", body)
 		w.V.Join(tt)
+		// Close the pool here: a connection the code under test never released would make Close wait for ever.
+		if pool := w.Pool; pool != nil {
+			if !leaked {
+				if n := c02AwaitReleased(pool); n > 0 {
+					leaked = true
+					vio("leak", "leak:pool-connection-never-released:"+cls, fmt.Sprintf("at the end of the run %d pool connection(s) are still acquired and nothing is handing them back", n))
+				}
+			}
+			done := make(chan struct{})
+			go func() { pool.Close(); close(done) }()
+			if !leaked {
+				select {
+				case <-done:
+				case <-time.After(30 * time.Second):
+					w.HarnessErr = "teardown: pool.Close hung although no connection is acquired"
+				}
+			}
+			w.Pool = nil // (world teardown must not wait for it again)
+		}
 	})
 	res.trans = w.V.Transitions
 	res.faults = append(append([]string{}, w.Faults...), res.faults...)
